@@ -353,6 +353,24 @@ def monitor_hp_ranges(tier="quick", seed=0):
         ("logfinrange(0.001,1,4)", cs.logfinrange(0.001, 1.0, 4)),
         ("logfinrange(1,1024,11,int)", cs.logfinrange(1, 1024, 11, cast_int=True)),
         ("finrange(2,2,1)", cs.finrange(2.0, 2.0, 1)),
+        # integer-cast finite ranges whose raw grid has exact .5 points (the value table and the decoder must round alike)
+        ("finrange(0,5,3,int)", cs.finrange(0, 5, 3, cast_int=True)),
+        ("finrange(1,4,3,int)", cs.finrange(1, 4, 3, cast_int=True)),
+        ("finrange(0,9,5,int)", cs.finrange(0, 9, 5, cast_int=True)),
+        ("finrange(-5,0,3,int)", cs.finrange(-5, 0, 3, cast_int=True)),
+        ("logfinrange(1,8,4,int)", cs.logfinrange(1, 8, 4, cast_int=True)),
+        # tiny but non-degenerate intervals (the whole interval must still round-trip)
+        ("uniform(1.0,1.00001)", cs.uniform(1.0, 1.00001)),
+        ("uniform(0.0,5e-9)", cs.uniform(0.0, 5e-9)),
+        ("uniform(123456,123457)", cs.uniform(123456.0, 123457.0)),
+        ("loguniform(1.0,1.00001)", cs.loguniform(1.0, 1.00001)),
+        ("reverseloguniform(0.5,0.500001)", cs.reverseloguniform(0.5, 0.500001)),
+        ("randint(10**9,10**9+3)", cs.randint(10**9, 10**9 + 3)),
+        # log-scaled bounds that do not survive exp(log(.)) exactly: decoding the corners must stay inside the domain
+        ("loguniform(1e-4,0.1)", cs.loguniform(1e-4, 0.1)),
+        ("loguniform(1e-6,0.01)", cs.loguniform(1e-6, 0.01)),
+        ("loguniform(0.001,0.7)", cs.loguniform(0.001, 0.7)),
+        ("reverseloguniform(0.1,0.9)", cs.reverseloguniform(0.1, 0.9)),
     ]
     clauses = ["decoded-is-member", "encoded-in-unit-cube", "round-trip", "sample-is-member", "cast-member-is-member", "json-round-trip"]
     viol = []
